@@ -92,9 +92,13 @@ pub fn roundtrip_event_upd(run: usize, p0: &Problem, dir: &str, solve_first: boo
         ov.presolve_enable = false;
         ov.chordal_decomposition_enable = false;
         ov.max_iter = 77;
+        // (the supplied settings are taken verbatim - also values that the FILE format reserves as sentinels)
+        ov.time_limit = [f64::MAX, 12.5, f64::INFINITY, 0.0][run % 4];
+        let ov_copy = ov.clone();
         f.seek(SeekFrom::Start(0)).unwrap();
         let s3 = DefaultSolver::<f64>::load_from_file(&mut f, Some(ov)).unwrap();
-        let override_applied = s3.settings.max_iter == 77 && !s3.settings.equilibrate_enable;
+        let override_applied = s3.settings.max_iter == 77 && !s3.settings.equilibrate_enable
+            && format!("{:?}", s3.settings) == format!("{:?}", ov_copy) && s3.settings.time_limit.to_bits() == ov_copy.time_limit.to_bits();
         let reduced = s1.data.m != p.m() || s1.data.n != p.n();
         let mut pairs = vec![];
         let mut pattern_equal = true;
@@ -381,6 +385,15 @@ pub fn fault_events(seed: u64, thorough: bool, dir: &str) -> Vec<Value> {
         if let Some(so) = v.get("settings").and_then(|x| x.as_object()) {
             for (k, val) in so { if let Some(bv) = val.as_bool() { let kk = k.clone(); sem(&format!("settings.{} flipped", k), "any", &|x| { x["settings"][kk.as_str()] = json!(!bv); }); } }
         }
+        // every floating-point setting damaged in its sign, exponent or value (a file that still parses loads; it never panics)
+        if let Some(so) = v.get("settings").and_then(|x| x.as_object()) {
+            for (k, val) in so {
+                if let Some(fv) = val.as_f64() { if val.is_f64() {
+                    let kk = k.clone();
+                    for nv in [-fv, fv * 1e8, fv * 1e-8, 0.0] { if nv != fv { let kk2 = kk.clone(); sem(&format!("settings.{} = {:e}", k, nv), "any", &|x| { x["settings"][kk2.as_str()] = json!(nv); }); } }
+                } }
+            }
+        }
         if let Some(ca) = v.get("cones").and_then(|x| x.as_array()) {
             for (ci, c) in ca.iter().enumerate() {
                 let (tag, val) = c.as_object().unwrap().iter().next().unwrap();
@@ -549,6 +562,8 @@ pub fn roundtrip_events(seed: u64, count: usize, dir: &str) -> (Vec<Value>, Vec<
             p.A = Csc::from_dense(&a, p.m(), p.n());
             p.b[i] = [1e16, 1e17, 3e18, 9e19][rng.gen_range(0..4)];
         }
+        // a hugely negative finite right-hand side (only entries at or above +bound are "infinite")
+        if rng.gen::<f64>() < 0.08 && p.m() > 0 { let i = rng.gen_range(0..p.m()); p.b[i] = [-3e24, -1e20, -7.5e30][rng.gen_range(0..3)]; }
         let upd = rng.gen::<f64>() < 0.25;
         let ev = roundtrip_event_upd(run, &p, dir, rng.gen::<bool>(), rng.gen::<f64>() < 0.25, upd);
         if ev.get("skipped").is_some() { lines.push(roundtrip_event(run, &p, dir, false, false)); } else { lines.push(ev); }
